@@ -150,6 +150,10 @@ def hansenlaw_transform(image, dr=1, direction='inverse', hold_order=0,
 
         return integral
 
+    if direction not in ('forward', 'inverse'):
+        raise ValueError('Wrong direction "{}", must be "forward" or '
+                         '"inverse"'.format(direction))
+
     # parameters for Abel transform system model, Table 1.
     h = np.array([0.318, 0.19, 0.35, 0.82, 1.8, 3.9, 8.3, 19.6, 48.3])
     lam = np.array([0.0, -2.1, -6.2, -22.4, -92.5, -414.5, -1889.4, -8990.9,
